@@ -114,6 +114,13 @@ type gen struct {
 	fviews []credgen.View
 	fcases []fcase
 	scases []scase // the 8 component subsets x 4 methods, as observed
+	hlooks []hlook // lookups of facade histories on ONE Processor value
+}
+
+type hlook struct {
+	doc []byte
+	l   Lookup
+	obs lobs
 }
 
 type scase struct {
@@ -944,6 +951,47 @@ func (g *gen) facade() {
 			})
 		}
 	}
+	// histories on ONE Processor value: the same (type, field) looked up under schema revisions that
+	// move the field to another slot, drop it (error), restore it - each answer is the configured
+	// parser's own answer on THOSE bytes (the facade keeps nothing between calls)
+	{
+		base := g.env.NewSchema(strp(credgen.SerAttr("price", "count", "", "")))
+		rev := func(a, b, c, d string) []byte {
+			sc := &credgen.Schema{URL: base.URL, TypeName: base.TypeName, TypeIRI: base.TypeIRI, Ser: strp(credgen.SerAttr(a, b, c, d)), CtxShape: "map"}
+			return append([]byte{}, sc.BuildDoc()...)
+		}
+		revs := [][]byte{rev("price", "count", "", ""), rev("", "", "count", "price"), rev("name", "", "", ""), rev("price", "count", "", ""), rev("count", "price", "", ""), rev("", "", "", "")}
+		bad := "iden3:v1:slotIndexA=price=count"
+		revs = append(revs, (&credgen.Schema{URL: base.URL, TypeName: base.TypeName, TypeIRI: base.TypeIRI, Ser: &bad, CtxShape: "map"}).BuildDoc(), rev("", "price", "", "count"))
+		for _, order := range [][]int{{0, 1, 2, 3, 4, 5, 6, 7}, {1, 0, 1, 0}, {2, 0, 2, 1, 5, 4}, {6, 7, 6, 3}} {
+			p := processor.InitProcessorOptions(&processor.Processor{}, processor.WithParser(gjson.Parser{}))
+			for step, ri := range order {
+				for _, l := range []Lookup{{Field: "price", Type: base.TypeName, Route: "facade"}, {Field: "count", Type: base.TypeIRI, Route: "facade"}, {Field: "name", Type: base.TypeName, Route: "facade"}} {
+					var via, direct lobs
+					func() {
+						defer func() {
+							if r := recover(); r != nil {
+								via = lobs{class: "panic", msg: fmt.Sprint(r)}
+							}
+						}()
+						i, err := p.GetFieldSlotIndex(l.Field, l.Type, revs[ri])
+						via = lobs{class: "ok", idx: i}
+						if err != nil {
+							via = lobs{class: "err", idx: i, msg: err.Error()}
+						}
+					}()
+					direct = doLookup("parser", l.Field, l.Type, revs[ri])
+					rep.Evaluations += 2
+					rep.Count("facade:history:" + via.class)
+					if via.class != direct.class || via.idx != direct.idx {
+						fail(fmt.Sprintf("step %d of a history on one Processor: GetFieldSlotIndex(%q, %q) on schema revision %d gives %s %d through the facade, %s %d from its parser on the same bytes",
+							step, l.Field, l.Type, ri, via.class, via.idx, direct.class, direct.idx), map[string]any{"history": order, "step": step})
+					}
+					g.hlooks = append(g.hlooks, hlook{doc: revs[ri], l: l, obs: via})
+				}
+			}
+		}
+	}
 	// missing components
 	empty := processor.InitProcessorOptions(&processor.Processor{})
 	if _, err := empty.GetFieldSlotIndex("f", "t", nil); err == nil {
@@ -1231,9 +1279,27 @@ func (g *gen) writeShards() error {
 			g.rep.Case(name, id, map[string]any{"facade": map[string]any{"validator": c.v, "parser": c.p, "loader": c.l, "method": c.method}})
 			id++
 		}
+		// facade histories: the model's facade is a function of the bytes of each call
+		var hd, hl []string
+		for k, h := range g.hlooks {
+			f.Add(fmt.Sprintf("Definition hd%d := %s.", k, docCoq(f, h.doc)))
+			hd = append(hd, fmt.Sprintf("hd%d", k))
+			ob := "LErr"
+			switch {
+			case h.obs.class == "ok" && h.obs.idx >= 0:
+				ob = fmt.Sprintf("LIdx %d", h.obs.idx)
+			case h.obs.class != "err":
+				ob = "LPanic"
+			}
+			hl = append(hl, fmt.Sprintf("mkl %d RFacade %d %s %s (%s)", id, k, f.Str(h.l.Field), f.Str(h.l.Type), ob))
+			g.rep.Case(name, id, map[string]any{"facade": map[string]any{"history_lookup": h.l}})
+			id++
+		}
+		f.Add("Definition hdocs_ : list schema_doc := [" + strings.Join(hd, "; ") + "].")
+		f.Add("Definition hlcases_ : list lcase := " + coqgen.List(hl) + ".")
 		f.Add("Definition fcases_ : list fcase := " + coqgen.List(fs) + ".")
 		f.Add("Definition scases_ : list scase := " + coqgen.List(ss) + ".")
-		f.Add("Definition M := Eval vm_compute in (fmismatches oracles_ creds_ fcases_ ++ smismatches scases_)%list.")
+		f.Add("Definition M := Eval vm_compute in (fmismatches oracles_ creds_ fcases_ ++ smismatches scases_ ++ lmismatches hdocs_ hlcases_)%list.")
 		f.Add("Print M.")
 		if err := f.Write(name); err != nil {
 			return err
@@ -1246,7 +1312,7 @@ func (g *gen) writeShards() error {
 func Run(cfg *common.Config) (*common.Report, error) {
 	rep := common.NewReport("C17")
 	rep.Correspondence = "Claim.Run.lmismatches / hmismatches / amismatches / fmismatches: get_field_slot_index, parser_parse_claim and the facade (Claim/Model.v) vs json.Parser.GetFieldSlotIndex / ParseClaim and processor.Processor; to_core_claim vs W3CCredential.ToCoreClaim on a credential of each type; and the model's own lookup against the model's own claim on the recorded field encodings"
-	rep.Rule = "ALL 6^4 = 1296 assignments of the four data slots to {none, price, count, name, info.insured, info.since}; per assignment: lookups of the five fields, an unnamed field and the empty string by type name and by type IRI, an unknown type, the processor facade with and without parser, and the claim of a credential of that type (subject id / expiration varied; for every 8th assignment the credential's contexts are ipfs:// objects resolvable only through WithIPFSClient / WithIPFSGateway in the options; for every 8th assignment also credentials without credentialSubject.type whose top-level type pair is written in both orders, and with three types / without VerifiableCredential: no claim); plus reordered and repeated parts, absent designated fields, 32 malformed attributes (a second '=' in a part in every position, a lost '&', empty key, doubled / trailing '='), non-string attribute, no attribute, array-shaped scoped context, sibling types sorting before/after (30 repetitions), 13 bad schema documents, every subset of {validator, parser, loader} x every facade method with stub components; stub components behind the facade (results and the options object passed through, field by field); ParseClaim through the facade vs the parser called directly for every option field and three sets of merklizer options (a loader that alone resolves the contexts, + custom hasher, + safe mode off); for every 9th assignment a claim is first built with a second document loader that serves another schema document (merklized / the assignment read backwards) at the same URL and type. distinct = distinct (schema, lookups, credential) inputs; all are non-trivial (each reaches the attribute parser or one of the documented error points)."
+	rep.Rule = "ALL 6^4 = 1296 assignments of the four data slots to {none, price, count, name, info.insured, info.since}; per assignment: lookups of the five fields, an unnamed field and the empty string by type name and by type IRI, an unknown type, the processor facade with and without parser, and the claim of a credential of that type (subject id / expiration varied; for every 8th assignment the credential's contexts are ipfs:// objects resolvable only through WithIPFSClient / WithIPFSGateway in the options; for every 8th assignment also credentials without credentialSubject.type whose top-level type pair is written in both orders, and with three types / without VerifiableCredential: no claim); plus reordered and repeated parts, absent designated fields, 32 malformed attributes (a second '=' in a part in every position, a lost '&', empty key, doubled / trailing '='), non-string attribute, no attribute, array-shaped scoped context, sibling types sorting before/after (30 repetitions), 13 bad schema documents, every subset of {validator, parser, loader} x every facade method with stub components; histories of lookups on ONE Processor value under schema revisions that move / drop / restore a field; stub components behind the facade (results and the options object passed through, field by field); ParseClaim through the facade vs the parser called directly for every option field and three sets of merklizer options (a loader that alone resolves the contexts, + custom hasher, + safe mode off); for every 9th assignment a claim is first built with a second document loader that serves another schema document (merklized / the assignment read backwards) at the same URL and type. distinct = distinct (schema, lookups, credential) inputs; all are non-trivial (each reaches the attribute parser or one of the documented error points)."
 	g := &gen{cfg: cfg, rep: rep, env: credgen.NewEnv(), env2: credgen.NewEnv()}
 	merklize.SetDocumentLoader(g.env.Loader)
 	credgen.InstallGateway(g.env)
